@@ -91,9 +91,6 @@ def local_defs(fi: FuncInfo, name: str) -> list[tuple[ast.stmt, ast.expr | None,
         elif isinstance(n, ast.ExceptHandler):
             if n.name == name:
                 out.append((n, None, None))
-        elif isinstance(n, ast.comprehension):
-            if name in names_in(n.target):
-                out.append((n, None, None))
     return out
 
 
